@@ -236,6 +236,10 @@ class LedgerDevice:
         cap = self.cfg.get("max_chunk")
         if cap:
             return ch.int_between(max(1, cap // 2), cap, label + ".cap")
+        if self.cfg.get("chunk_regime") == "tiny":
+            # a device that asks for a few bytes at a time, all the time: long transfers take
+            # thousands of messages
+            return 1 + ch.draw(3, label + ".tiny")
         kind = ch.draw(4, label + ".kind")
         if kind == 0:
             return 255
@@ -626,7 +630,9 @@ class LedgerDevice:
             if se.term == "early" and se.stop_at is not None:
                 # never overshoot the early stop
                 se.requested = max(1, min(se.requested, se.stop_at - len(se.got)))
-            if rem is not None and rem > 0 and self.ch.draw(8, "sign.exactrem") == 1:
+            if self.cfg.get("chunk_regime") == "tiny":
+                pass                                  # a few bytes at a time, to the end
+            elif rem is not None and rem > 0 and self.ch.draw(8, "sign.exactrem") == 1:
                 se.requested = min(255, rem)          # exactly-the-remainder
                 self.probe("sign.exact_remainder_request")
             elif rem is not None and 0 < rem < 255 and self.ch.draw(8, "sign.rem1") == 1:
